@@ -15,6 +15,8 @@ class C02(Check):
     def profile(self, rng, tier):
         big = tier == "thorough"
         kinds = ["TaskStartAt", "TaskPrecedence", "TasksStartSynced", "TasksEndSynced", "SameWorkers", "DistinctWorkers", "ResourceUnavailable", "WorkLoad"]
+        if rng.random() < 0.12:
+            return gen.profile(**gen.FOCUS["soft-due"])
         return gen.profile(
             n_tasks=(2, 6 if big else 5), p_optional=0.2, p_zero=0.12, p_variable=0.35, n_workers=(1, 4 if big else 3), p_cumulative=0.35,
             p_select=0.55, p_assign=0.9, p_dynamic=0.25, p_delayed=0.25, p_work=0.35, p_horizon=0.7, slack=(0, 6),
